@@ -165,6 +165,13 @@ struct ImageDesc {
     /// (file, length) if this image is a truncation of the final state
     truncate: Option<(String, usize)>,
     kind: String,
+    /// 0: an unsynced truncation (O_TRUNC re-creation, ftruncate) of a file is durable at once and a dropped sector reads as
+    ///    zeros (the file system's own consistency: journalled metadata);
+    /// 1: the truncation itself is among the things that did not reach the disk: under every dropped sector the bytes the file
+    ///    held BEFORE it was truncated show through ("rollback of a block to its pre-write content");
+    /// 2: as 1, and the old file length is kept as well (old tail after the new bytes).
+    #[serde(default)]
+    underlay: u8,
 }
 
 struct SectorWrite {
@@ -175,6 +182,42 @@ struct SectorWrite {
 
 /// state of the files at `prefix` with the given unsynced sector-writes dropped
 fn build_image(log: &[LogOp], prefix: usize, sector: usize, dropped: &HashSet<usize>) -> (Files, usize) {
+    let (f, ids) = build_image_ids(log, prefix, sector, dropped);
+    (f, ids.len())
+}
+
+/// Feasibility of a torn image.  The unsynced writes that touch one sector reach the disk cumulatively (they modify the same
+/// cached block, which is written back as a whole): the sector's on-disk content is its content after some PREFIX of those
+/// writes.  A descriptor that drops a write but keeps a later write to the same sector describes no image a crash can
+/// leave; `close_dropped` turns any dropped-set into the feasible one that rolls each touched sector back to the state before
+/// its first dropped write (different sectors stay independent).
+fn close_dropped(ids: &[(String, u64)], dropped: &[usize]) -> Vec<usize> {
+    let mut first: BTreeMap<&(String, u64), usize> = BTreeMap::new();
+    for &k in dropped {
+        if k < ids.len() {
+            let e = first.entry(&ids[k]).or_insert(k);
+            if k < *e {
+                *e = k;
+            }
+        }
+    }
+    (0..ids.len()).filter(|k| first.get(&ids[*k]).map(|f| k >= f).unwrap_or(false)).collect()
+}
+
+/// as `build_image`; additionally the (file, sector number) of every unsynced sector-write, in log order
+fn build_image_ids(log: &[LogOp], prefix: usize, sector: usize, dropped: &HashSet<usize>) -> (Files, Vec<(String, u64)>) {
+    let (f, ids, _) = build_image_full(log, prefix, sector, dropped, 0);
+    (f, ids)
+}
+
+/// as `build_image_ids` with an `underlay` mode (see `ImageDesc::underlay`); the third result says whether any file had
+/// content that an unsynced truncation removed (only then do modes 1 and 2 differ from mode 0)
+fn build_image_full(log: &[LogOp], prefix: usize, sector: usize, dropped: &HashSet<usize>, underlay: u8) -> (Files, Vec<(String, u64)>, bool) {
+    let mut ids: Vec<(String, u64)> = Vec::new();
+    // per file: its bytes right before the FIRST unsynced truncation within the prefix
+    let mut old: Files = Files::new();
+    // per file: the byte ranges of dropped sector-writes
+    let mut holes: Vec<(String, usize, usize)> = Vec::new();
     // find, per file, the index of its last Sync within the prefix
     let mut last_sync: BTreeMap<String, usize> = BTreeMap::new();
     for (i, op) in log[..prefix].iter().enumerate() {
@@ -211,21 +254,80 @@ fn build_image(log: &[LogOp], prefix: usize, sector: usize, dropped: &HashSet<us
                             let sw = SectorWrite { path: path.clone(), offset: abs as u64, data: data[pos..pos + take].to_vec() };
                             let e = files.entry(sw.path.clone()).or_default();
                             e[sw.offset as usize..sw.offset as usize + sw.data.len()].copy_from_slice(&sw.data);
+                            // a later write to the same bytes that did arrive covers an earlier hole
+                            holes.retain(|(p, a, b)| !(p == path && *a >= abs && *b <= abs + take));
+                        } else {
+                            holes.push((path.clone(), abs, abs + take));
                         }
+                        ids.push((path.clone(), (abs / sector) as u64));
                         k += 1;
                         pos += take;
                     }
                 }
             }
+            LogOp::Create { path, trunc: true } | LogOp::Truncate { path, .. } => {
+                let synced = last_sync.get(path).map(|s| i < *s).unwrap_or(false);
+                if !synced {
+                    if let Some(c) = files.get(path) {
+                        let shrinks = match op {
+                            LogOp::Truncate { len, .. } => (*len as usize) < c.len(),
+                            _ => !c.is_empty(),
+                        };
+                        if shrinks && !old.contains_key(path) {
+                            old.insert(path.clone(), c.clone());
+                        }
+                    }
+                }
+                apply(&mut files, op)
+            }
             _ => apply(&mut files, op),
         }
     }
-    (files, k)
+    let _ = k;
+    let had_old = old.values().any(|c| !c.is_empty());
+    if underlay >= 1 {
+        for (p, a, b) in &holes {
+            if let (Some(o), Some(f)) = (old.get(p), files.get_mut(p)) {
+                let end = (*b).min(o.len()).min(f.len());
+                if *a < end {
+                    f[*a..end].copy_from_slice(&o[*a..end]);
+                }
+            }
+        }
+        // bytes of the new length that no write of the prefix has touched yet also still hold the old content
+        for (p, o) in &old {
+            if let Some(f) = files.get_mut(p) {
+                let mut written = vec![false; f.len()];
+                for (i, op) in log[..prefix].iter().enumerate() {
+                    if let LogOp::Write { path, offset, data } = op {
+                        let _ = i;
+                        if path == p {
+                            for x in (*offset as usize)..((*offset as usize + data.len()).min(written.len())) {
+                                written[x] = true;
+                            }
+                        }
+                    }
+                }
+                for x in 0..f.len().min(o.len()) {
+                    if !written[x] {
+                        f[x] = o[x];
+                    }
+                }
+                if underlay >= 2 && o.len() > f.len() {
+                    let n = f.len();
+                    f.extend_from_slice(&o[n..]);
+                }
+            }
+        }
+    }
+    (files, ids, had_old)
 }
 
 fn image_from_desc(log: &[LogOp], d: &ImageDesc) -> Files {
-    let dropped: HashSet<usize> = d.dropped.iter().copied().collect();
-    let (mut files, _) = build_image(log, d.prefix, d.sector.max(1), &dropped);
+    // (descriptors recorded before the feasibility rule existed may name an infeasible set: it is closed here as well)
+    let (_, ids) = build_image_ids(log, d.prefix, d.sector.max(1), &HashSet::new());
+    let dropped: HashSet<usize> = close_dropped(&ids, &d.dropped).into_iter().collect();
+    let (mut files, _, _) = build_image_full(log, d.prefix, d.sector.max(1), &dropped, d.underlay);
     if let Some((f, len)) = &d.truncate {
         if let Some(c) = files.get_mut(f) {
             c.truncate(*len);
@@ -243,7 +345,13 @@ enum ChildAnswer {
     BadAfterRecovery(Vec<u8>, String),
 }
 
-impl<S: CrashSpec> Crash<S> {
+/// The engine proper, over a spec object: used by `Crash` (one history) and `CrashFamily` (all histories up to a depth).
+struct Eng<'a> {
+    spec: &'a dyn CrashSpec,
+    shim: &'static ShimApi,
+}
+
+impl Eng<'_> {
     /// run reopen() in a forked child; returns the answer or the way the child died
     fn reopen_isolated(&self, dir: &Path) -> Result<ChildAnswer, String> {
         let mut fds = [0 as libc::c_int; 2];
@@ -416,7 +524,6 @@ impl<S: CrashSpec> Subject for Crash<S> {
     fn name(&self) -> String {
         self.spec.name()
     }
-
     fn explore(&self, ctx: &mut Ctx) {
         let name = self.name();
         let tier = ctx.tier;
@@ -425,11 +532,74 @@ impl<S: CrashSpec> Subject for Crash<S> {
             self.spec.describe(),
             self.spec.sector_sizes(tier)
         );
+        Eng { spec: &self.spec, shim: self.shim }.explore_as(ctx, &name, &|d| d);
+    }
+    fn replay(&self, ctx: &mut Ctx, witness: &Value) -> Verdict {
+        Eng { spec: &self.spec, shim: self.shim }.replay_desc(ctx, witness)
+    }
+}
+
+/// All histories of a family (e.g. every operation sequence up to a depth over a small alphabet), each one explored like a
+/// single `Crash` subject; reported under one subject name.  A witness is `{"history": <member name>, "image": <descriptor>}`.
+pub struct CrashFamily {
+    pub name: String,
+    pub describe: String,
+    /// the member histories for a tier (simplest first)
+    pub members: Box<dyn Fn(Tier) -> Vec<Box<dyn CrashSpec>> + Send + Sync>,
+    pub shim: &'static ShimApi,
+}
+
+impl Subject for CrashFamily {
+    fn name(&self) -> String {
+        self.name.clone()
+    }
+    fn explore(&self, ctx: &mut Ctx) {
+        let name = self.name();
+        let tier = ctx.tier;
+        let members = (self.members)(tier);
+        let sect = members.first().map(|m| m.sector_sizes(tier)).unwrap_or_default();
+        ctx.stats(&name).bound = format!(
+            "{} — {} histories in this tier, EACH explored completely: every prefix of its write log x subsets of unsynced sectors (all subsets when <= 10 sectors, else single drops + prefixes + header-only/all-but-header) at sector sizes {:?}; every truncation length of every final file; the undamaged file at an acknowledged sync must reopen with exactly that content; each image reopened in a forked child",
+            self.describe,
+            members.len(),
+            sect
+        );
+        *ctx.stats(&name).extra.entry("histories".into()).or_insert(0) = members.len() as u64;
+        for m in &members {
+            if ctx.out_of_time() {
+                ctx.stats(&name).cap_hit = true;
+                break;
+            }
+            let hist = m.name();
+            Eng { spec: m.as_ref(), shim: self.shim }.explore_as(ctx, &name, &|d| json!({"history": hist, "image": d}));
+        }
+    }
+    fn replay(&self, ctx: &mut Ctx, witness: &Value) -> Verdict {
+        let hist = match witness.get("history").and_then(|h| h.as_str()) {
+            Some(h) => h.to_string(),
+            None => return Verdict::Unreplayable("witness has no history".into()),
+        };
+        for tier in [Tier::Quick, Tier::Thorough] {
+            for m in (self.members)(tier) {
+                if m.name() == hist {
+                    return Eng { spec: m.as_ref(), shim: self.shim }.replay_desc(ctx, witness.get("image").unwrap_or(&Value::Null));
+                }
+            }
+        }
+        Verdict::Unreplayable(format!("no member history named {hist}"))
+    }
+}
+
+impl Eng<'_> {
+    /// explore one history; statistics and violations are booked under `name`, witnesses are passed through `wrap`
+    fn explore_as(&self, ctx: &mut Ctx, name: &str, wrap: &dyn Fn(Value) -> Value) {
+        let name = name.to_string();
+        let tier = ctx.tier;
         let scratch = ctx.scratch.clone();
         let (log, states, hist_dir, explicit) = match self.record(&scratch) {
             Ok(x) => x,
             Err(e) => {
-                ctx.machinery_error(format!("{name}: {e}"));
+                ctx.machinery_error(format!("{name} [{}]: {e}", self.spec.name()));
                 return;
             }
         };
@@ -447,46 +617,74 @@ impl<S: CrashSpec> Subject for Crash<S> {
             ctx.machinery_error(format!("{name}: image rebuilt from the complete write log differs from the directory the run left behind: {:?}", diff));
             return;
         }
-        *ctx.stats(&name).extra.entry("log_ops".into()).or_insert(0) = log.len() as u64;
-        *ctx.stats(&name).extra.entry("sync_points".into()).or_insert(0) = states.len() as u64;
-        *ctx.stats(&name).extra.entry("full_log_image_validated_against_real_directory".into()).or_insert(0) = 1;
+        *ctx.stats(&name).extra.entry("log_ops".into()).or_insert(0) += log.len() as u64;
+        *ctx.stats(&name).extra.entry("sync_points".into()).or_insert(0) += states.len() as u64;
+        *ctx.stats(&name).extra.entry("full_log_image_validated_against_real_directory".into()).or_insert(0) += 1;
         let dirs: Vec<String> = log.iter().filter_map(|o| if let LogOp::Mkdir { path } = o { Some(path.clone()) } else { None }).collect();
 
         // enumerate image descriptors
         let mut descs: Vec<ImageDesc> = Vec::new();
         for sector in self.spec.sector_sizes(tier) {
             for prefix in 0..=log.len() {
-                let (_, n_unsynced) = build_image(&log, prefix, sector, &HashSet::new());
-                descs.push(ImageDesc { prefix, sector, dropped: vec![], truncate: None, kind: "prefix".into() });
+                let (_, ids, had_old) = build_image_full(&log, prefix, sector, &HashSet::new(), 0);
+                let n_unsynced = ids.len();
+                descs.push(ImageDesc { prefix, sector, dropped: vec![], truncate: None, kind: "prefix".into(), underlay: 0 });
+                let first_desc = descs.len();
+                if had_old {
+                    // the truncation of the older file is itself not durable yet: old bytes where nothing new was written, with
+                    // the new and with the old file length
+                    descs.push(ImageDesc { prefix, sector, dropped: vec![], truncate: None, kind: "prefix+old_blocks".into(), underlay: 1 });
+                    descs.push(ImageDesc { prefix, sector, dropped: vec![], truncate: None, kind: "prefix+old_blocks+old_length".into(), underlay: 2 });
+                }
                 if n_unsynced == 0 {
                     continue;
                 }
+                // every dropped-set is closed to a feasible one (writes to one sector arrive cumulatively); duplicates removed
+                let mut seen_sets: HashSet<Vec<usize>> = HashSet::new();
+                let mut push = |descs: &mut Vec<ImageDesc>, dropped: Vec<usize>, kind: &str| {
+                    let closed = close_dropped(&ids, &dropped);
+                    if !closed.is_empty() && seen_sets.insert(closed.clone()) {
+                        descs.push(ImageDesc { prefix, sector, dropped: closed, truncate: None, kind: kind.into(), underlay: 0 });
+                    }
+                };
                 if n_unsynced <= 10 {
                     for mask in 1u32..(1u32 << n_unsynced) {
                         let dropped: Vec<usize> = (0..n_unsynced).filter(|i| mask & (1 << i) != 0).collect();
-                        descs.push(ImageDesc { prefix, sector, dropped, truncate: None, kind: "torn_subset".into() });
+                        push(&mut descs, dropped, "torn_subset");
                     }
                 } else {
                     for i in 0..n_unsynced {
-                        descs.push(ImageDesc { prefix, sector, dropped: vec![i], truncate: None, kind: "torn_single".into() });
-                        descs.push(ImageDesc { prefix, sector, dropped: (i..n_unsynced).collect(), truncate: None, kind: "torn_tail".into() });
+                        push(&mut descs, vec![i], "torn_single");
+                        push(&mut descs, (i..n_unsynced).collect(), "torn_tail");
                     }
-                    descs.push(ImageDesc { prefix, sector, dropped: (1..n_unsynced).collect(), truncate: None, kind: "header_only".into() });
-                    descs.push(ImageDesc { prefix, sector, dropped: vec![0], truncate: None, kind: "all_but_header".into() });
+                    push(&mut descs, (1..n_unsynced).collect(), "header_only");
+                    push(&mut descs, vec![0], "all_but_header");
+                }
+                if had_old {
+                    // every torn image of this prefix once more with the older file's bytes under the dropped sectors
+                    let torn: Vec<ImageDesc> = descs[first_desc..].iter().filter(|d| !d.dropped.is_empty()).cloned().collect();
+                    for d in torn {
+                        for u in [1u8, 2] {
+                            let mut e = d.clone();
+                            e.underlay = u;
+                            e.kind = format!("{}+old_blocks{}", d.kind, if u == 2 { "+old_length" } else { "" });
+                            descs.push(e);
+                        }
+                    }
                 }
             }
         }
         for (f, c) in &full {
             for len in truncation_lengths(c.len()) {
-                descs.push(ImageDesc { prefix: log.len(), sector: 512, dropped: vec![], truncate: Some((f.clone(), len)), kind: "truncated".into() });
+                descs.push(ImageDesc { prefix: log.len(), sector: 512, dropped: vec![], truncate: Some((f.clone(), len)), kind: "truncated".into(), underlay: 0 });
             }
         }
 
         let nshards = ctx.args.nshards;
         let shard = ctx.args.shard;
-        let offset = (h64(&name) % nshards as u64) as usize;
+        let offset = (h64(&self.spec.name()) % nshards as u64) as usize;
         let mut seen: HashSet<u64> = HashSet::new();
-        let img_dir = scratch.join(format!("img-{}", h64(&name)));
+        let img_dir = scratch.join(format!("img-{}", h64(&self.spec.name())));
         for (i, d) in descs.iter().enumerate() {
             if (i + offset) % nshards != shard {
                 continue;
@@ -509,7 +707,7 @@ impl<S: CrashSpec> Subject for Crash<S> {
                 *ctx.stats(&name).outcomes.entry("duplicate_image".into()).or_insert(0) += 1;
                 continue;
             }
-            ctx.journal(&name, &|| serde_json::to_value(d).unwrap_or(Value::Null));
+            ctx.journal(&name, &|| wrap(serde_json::to_value(d).unwrap_or(Value::Null)));
             if let Err(e) = materialize(&img_dir, &files, &dirs) {
                 ctx.machinery_error(format!("{name}: cannot materialize image: {e}"));
                 break;
@@ -527,13 +725,13 @@ impl<S: CrashSpec> Subject for Crash<S> {
                         ctx.stats(&name).nontrivial += 1;
                         ctx.add_case_hash(&name, hsh);
                     }
-                    ctx.add_sample(&name, &|| serde_json::to_value(d).unwrap_or(Value::Null));
+                    ctx.add_sample(&name, &|| wrap(serde_json::to_value(d).unwrap_or(Value::Null)));
                 }
                 Err(f) if f.clause == "machinery" => ctx.machinery_error(format!("{name}: {}", f.detail)),
                 Err(f) => {
                     *ctx.stats(&name).outcomes.entry(format!("fail:{}:{}", f.clause, f.class)).or_insert(0) += 1;
                     ctx.add_case_hash(&name, hsh);
-                    ctx.violation(&name, &f, serde_json::to_value(d).unwrap_or(Value::Null));
+                    ctx.violation(&name, &f, wrap(serde_json::to_value(d).unwrap_or(Value::Null)));
                 }
             }
         }
@@ -541,7 +739,7 @@ impl<S: CrashSpec> Subject for Crash<S> {
         let _ = std::fs::remove_dir_all(&hist_dir);
     }
 
-    fn replay(&self, ctx: &mut Ctx, witness: &Value) -> Verdict {
+    fn replay_desc(&self, ctx: &mut Ctx, witness: &Value) -> Verdict {
         let d: ImageDesc = match serde_json::from_value(witness.clone()) {
             Ok(d) => d,
             Err(e) => return Verdict::Unreplayable(format!("bad image descriptor: {e}")),
@@ -556,7 +754,7 @@ impl<S: CrashSpec> Subject for Crash<S> {
         }
         let dirs: Vec<String> = log.iter().filter_map(|o| if let LogOp::Mkdir { path } = o { Some(path.clone()) } else { None }).collect();
         let files = image_from_desc(&log, &d);
-        let img_dir = scratch.join(format!("img-replay-{}", h64(&self.name())));
+        let img_dir = scratch.join(format!("img-replay-{}", h64(&self.spec.name())));
         if let Err(e) = materialize(&img_dir, &files, &dirs) {
             return Verdict::Unreplayable(format!("cannot materialize: {e}"));
         }
